@@ -75,6 +75,16 @@ struct VmSharedReadonly {
     foreign_function_policies: Vec<ForeignCallPolicy>,
 }
 
+impl Drop for VmSharedReadonly {
+    fn drop(&mut self) {
+        // the program's string constants were leaked into raw pointers by `new_static`; every task
+        // that could reference them holds this struct through an Arc and is gone by now
+        for s in self.static_strings.drain(..) {
+            drop(unsafe { Box::from_raw(s) });
+        }
+    }
+}
+
 /*
 The CLI or some other program will
    2. initialize the worker pool (pool of real OS threads which will run the green threads) (OR JUST USE RAYON)
